@@ -15,8 +15,10 @@
 package local
 
 import (
+	"bytes"
 	"context"
 	stderrors "errors"
+	"sort"
 	"time"
 
 	"github.com/pkg/errors"
@@ -277,6 +279,9 @@ func (w *Watcher) startWatching(
 	ch.Go(func() { ch.handleEventsFromChain(w.rs, w.registry) }) //nolint:contextcheck
 	//nolint:contextcheck
 	ch.Go(func() { ch.handleStatesAfterRegisteredEvent(w.rs, w.registry) })
+	// The initial state of a sub-channel may be what the registration of its
+	// channel tree was waiting for.
+	ch.notifyStateReceived()
 
 	return statesPubSub, eventsToClientPubSub, nil
 }
@@ -459,13 +464,36 @@ func (ch *ch) handleStatesAfterRegisteredEvent(registerer channel.Registerer, ch
 			// Watching has been stopped. We return.
 			return
 		}
-		e := ch.lastRegisteredEvent
+		// The channel tree is registered as a whole. The state may be what the
+		// registration triggered by an event for another channel of the tree
+		// was refused for, so the last event of each of them is handled again.
+		for _, c := range channelTree(parent, chRegistry) {
+			if e := c.lastRegisteredEvent; e != nil && !c.isClosed {
+				c.handleRegisteredEventLocked(ctx, e, registerer, chRegistry, parent)
+			}
+		}
 		parent.subChsAccess.Unlock()
+	}
+}
 
-		if e != nil {
-			ch.handleRegisteredEvent(ctx, e, registerer, chRegistry)
+// channelTree returns the parent channel followed by its sub-channels that are
+// registered with the watcher, in the order of their IDs.
+//
+// This function assumes the callers has locked the parent channel.
+func channelTree(parent *ch, r *registry) []*ch {
+	ids := make([]channel.ID, 0, len(parent.subChs))
+	for id := range parent.subChs {
+		ids = append(ids, id)
+	}
+	sort.Slice(ids, func(i, j int) bool { return bytes.Compare(ids[i][:], ids[j][:]) < 0 })
+
+	tree := []*ch{parent}
+	for _, id := range ids {
+		if subCh, ok := r.retrieve(id); ok {
+			tree = append(tree, subCh)
 		}
 	}
+	return tree
 }
 
 func (ch *ch) handleRegisteredEvent(
@@ -492,6 +520,20 @@ func (ch *ch) handleRegisteredEvent(
 	defer parent.subChsAccess.Unlock()
 	ch.lastRegisteredEvent = e
 
+	ch.handleRegisteredEventLocked(ctx, e, registerer, chRegistry, parent)
+}
+
+// handleRegisteredEventLocked registers the channel tree if the event reports
+// a version that is older than the latest one, and relays the event.
+//
+// This function assumes the callers has locked the parent channel.
+func (ch *ch) handleRegisteredEventLocked(
+	ctx context.Context,
+	e *channel.RegisteredEvent,
+	registerer channel.Registerer,
+	chRegistry *registry,
+	parent *ch,
+) {
 	log := log.WithFields(log.Fields{"ID": e.ID(), "Version": e.Version()})
 	log.Debug("Received registered event from chain")
 
